@@ -148,6 +148,7 @@ class Facts:
         self.inlined = {}
         self.hidden = set()
         self.new_fns = set()
+        self.aliases = {}
         self._look_through_new_helpers()
 
     # ---- helper look-through (rules/inline.py): functions that did not exist on the reference tree
@@ -156,6 +157,30 @@ class Facts:
         if not os.path.exists(kp) or os.environ.get('VERIF_NO_INLINE'):
             return
         known = set(json.load(open(kp)))
+        # moved / re-homed functions: a known function is gone and exactly one new function carries its simple name
+        # (associated fn made free, moved to another impl or module): keep analysing it under the path the tables use
+        missing = {}
+        for d in known - set(self.fns):
+            if '::{' not in d and not d.startswith('<'):
+                missing.setdefault(d.split('::')[-1], []).append(d)
+        fresh = {}
+        for d, r in self.fns.items():
+            if d not in known and '::{' not in d and not d.startswith('<') and r.get('has_body') and d in self._body_pos:
+                fresh.setdefault(d.split('::')[-1], []).append(d)
+        self.aliases = {}
+        for name, olds in missing.items():
+            news = fresh.get(name, [])
+            if len(olds) == 1 and len(news) == 1 and len(self.fns[news[0]].get('params', [])) == len(self._known_params(olds[0], news[0])):
+                self.aliases[news[0]] = olds[0]
+        if self.aliases:
+            self._subst = [(json.dumps(n)[:-1].encode(), json.dumps(o)[:-1].encode()) for n, o in self.aliases.items()]
+            for n, o in self.aliases.items():
+                rec = dict(self.fns.pop(n)); rec['def'] = o; rec['moved_from'] = n
+                self.fns[o] = rec
+                for k in [k for k in self._body_pos if k == n or k.startswith(n + '::{')]:
+                    k2 = o + k[len(n):]
+                    self._body_pos[k2] = self._body_pos.pop(k)
+                    self.body_crate[k2] = self.body_crate.pop(k, None)
         cand = set()
         for d, r in self.fns.items():
             if d in known or d.startswith('<') or not r.get('has_body') or r.get('kind') not in ('Fn', 'AssocFn') or d not in self._body_pos:
@@ -230,13 +255,21 @@ class Facts:
     def has_raw(self, d):
         return d in self._body_pos
 
+    def _known_params(self, old, new):
+        # the frozen table holds names only: accept the alias when the simple name is unique on both sides
+        return self.fns[new].get('params', [])
+
     def load_raw(self, d):
         b = self._raw.get(d)
         if b is None:
             path, off, n = self._body_pos[d]
             with open(path, 'rb') as fh:
                 fh.seek(off)
-                b = json.loads(fh.read(n))
+                data = fh.read(n)
+            for a, o in getattr(self, '_subst', ()):
+                if a in data:
+                    data = data.replace(a + b'"', o + b'"').replace(a + b'::{', o + b'::{')
+            b = json.loads(data)
             self._raw[d] = b
         return b
 
